@@ -31,7 +31,7 @@ func (r *RigR) vchanFor(collID int64, srcPCh string) (string, *RColl) {
 	return "", c
 }
 
-func isData(k string) bool { return k == "ins" || k == "del" || k == "dropp" || k == "dropc" }
+func isData(k string) bool { return k == "ins" || k == "del" || k == "dropp" || k == "dropc" || k == "imp" }
 
 func (r *RigR) oracles() {
 	s := r.sim
@@ -242,6 +242,13 @@ func (r *RigR) oracles() {
 					continue
 				}
 				s.Violate("C01", "missing", "stream %s: source message type=%s tag=%d ts=%d (read in pack ending at id %d, step %d) was never emitted", vch, ref.e.Kind, t, ref.e.Ts, ref.dp.EndSeq, ref.dp.Step)
+				if ref.e.Kind == "imp" {
+					for _, sid := range ref.e.Parts {
+						if pt := c.part(sid); pt != nil && pt.Late >= 80 {
+							s.Violate("C06", "R_unprocessable_message_skipped", "stream %s: import message tag=%d names partition %q, whose downstream id cannot be learned within the retry budget; it was left out and no error was reported", vch, t, pt.Name)
+						}
+					}
+				}
 				if pt := c.part(ref.e.Part); pt != nil && pt.Late >= 80 {
 					// the message names a partition the downstream never makes known within the retry budget: it cannot be
 					// processed, and the reader has to report that (the server then pauses the task) - no error event was seen
@@ -453,6 +460,44 @@ func (r *RigR) checkAddress(c *RColl, vch string, e *REntry, p *EmPack, m *EmMsg
 	s := r.sim
 	if m.CollID != c.TgtID {
 		s.Violate("C02", "collection_id", "tag=%d of %s carries collection id %d, downstream id of %q is %d", e.Tag, vch, m.CollID, c.Name, c.TgtID)
+	}
+	if m.Type == "imp" {
+		// an import message names partitions by id: every source id has to be translated into the downstream id of the
+		// same-named partition; one that cannot be resolved makes the message unprocessable (an error, not a hand-over)
+		s.Probe("R_import_message_checked")
+		want := map[int64]bool{}
+		unresolvable := ""
+		for _, sid := range e.Parts {
+			if pt := c.part(sid); pt != nil {
+				want[pt.TgtID] = true
+				if pt.Late >= 80 {
+					unresolvable = pt.Name
+				}
+			}
+		}
+		same := len(want) == len(m.PartIDs)
+		for _, id := range m.PartIDs {
+			same = same && want[id]
+		}
+		if !same {
+			// known finding: the reader resolves the partitions of an import message by COUNT (when the downstream collection
+			// has as many partitions as the message names, all of them are taken): recognised when every id handed over is the
+			// downstream id of some partition of the collection
+			cls := "_import_partition_count_heuristic"
+			for _, id := range m.PartIDs {
+				known := false
+				for _, pt := range c.Parts {
+					known = known || pt.TgtID == id
+				}
+				if !known {
+					cls = ""
+				}
+			}
+			s.Violate("C02", "partition_id"+cls, "import message tag=%d of %s carries partition ids %v, the downstream ids of the partitions it names are %v", e.Tag, vch, m.PartIDs, SortedInt64Keys(want))
+			if unresolvable != "" {
+				s.Violate("C06", "R_unprocessable_message_passed_on"+cls, "import message tag=%d of %s names partition %q, whose downstream id cannot be learned within the retry budget; it was handed over with partition ids %v and no error was reported", e.Tag, vch, unresolvable, m.PartIDs)
+			}
+		}
 	}
 	switch m.Type {
 	case "ins", "del", "dropp":
